@@ -333,6 +333,21 @@ fn run_special(dims: &[usize]) -> Result<(), (String, String)> {
             }
         }
     }
+    // +0.0 and -0.0 are equal values (the elements compare equal), so arrays that differ only in the sign of a zero are equal
+    {
+        let n = numel(dims);
+        let pz = arr(dims, &vec![0.0; n]);
+        let nz = arr(dims, &vec![-0.0; n]);
+        let mut mixed = vec![0.0; n];
+        for (i, m) in mixed.iter_mut().enumerate() {
+            if i % 2 == 1 {
+                *m = -0.0;
+            }
+        }
+        if pz != nz || nz != pz || pz != arr(dims, &mixed) || pz != -&pz {
+            return Err(("equality:signed-zero".into(), format!("dims {:?}: arrays of +0.0 and of -0.0 (also the negation of a zeros array) have equal dimensions and equal values but compare unequal", dims)));
+        }
+    }
     if a != arr(dims, &vals) {
         return Err(("equality:special-values".into(), format!("dims {:?}: two arrays built from the same special values compare unequal", dims)));
     }
